@@ -136,6 +136,7 @@ MUTANTS = [
     ("H-stale-sccs-missing-dependency-counts-as-stale", "C02", "find_stale_sccs", "mypy/build.py", "                if dep in graph and graph[dep].interface_hash != graph[id].dep_hashes[dep]:", "                if dep not in graph or graph[dep].interface_hash != graph[id].dep_hashes[dep]:", "pass"),
     ("arity-star-into-keyword-only-accepted", "C12", "arity", "mypy/checkexpr.py", "                and actual_kinds[mapped_args[0]] not in [nodes.ARG_NAMED, nodes.ARG_STAR2]", "                and actual_kinds[mapped_args[0]] == nodes.ARG_POS", "violation"),
     ("H-arity-positional-kinds-listed", "C12", "arity", "mypy/checkexpr.py", "                and actual_kinds[mapped_args[0]] not in [nodes.ARG_NAMED, nodes.ARG_STAR2]", "                and actual_kinds[mapped_args[0]] in [nodes.ARG_POS, nodes.ARG_STAR, nodes.ARG_OPT, nodes.ARG_NAMED_OPT]", "pass"),
+    ("cflags-fast-math-in-optimized-builds", "C15", "cflags", "mypyc/build.py", '        if opt_level == "0":\n            cflags.append("-UNDEBUG")', '        if opt_level == "0":\n            cflags.append("-UNDEBUG")\n        else:\n            cflags.append("-ffast-math")', "violation"),
     ("enabled-parent-check-dropped", "C13", "is_error_code_enabled", "mypy/errors.py", "elif error_code.sub_code_of is not None and error_code.sub_code_of in current_mod_disabled:\n            return False", "elif error_code.sub_code_of is not None and error_code.sub_code_of in current_mod_enabled:\n            return False", "violation"),
 ]
 
